@@ -239,7 +239,9 @@ func (b *Billet) traverse(curr Node, path, from []byte, process func(pathToNode 
 		}
 		return b.traverse(r, path, from, process, ignoreStorageErr, backwards)
 	}
-	if len(from) == 0 {
+	// A leaf reached with the start path not exhausted has a key that is a
+	// proper prefix of the start, i.e. it precedes the start.
+	if len(from) == 0 || (backwards && curr.Type() == LeafT) {
 		bytes := bytes.Clone(curr.Bytes())
 		if process(fromNibbles(path), curr, bytes) {
 			return curr, errStop
@@ -300,8 +302,9 @@ func (b *Billet) traverse(curr Node, path, from []byte, process func(pathToNode 
 				n.Children[i] = r
 			}
 			// Process the last child after the rest of the children to match lexicographic keys comparison order,
-			// since the last child doesn't add suffix to the key.
-			r, err := b.traverse(n.Children[lastChild], path, from, process, ignoreStorageErr, backwards)
+			// since the last child doesn't add suffix to the key (thus it precedes any start
+			// position inside of this branch).
+			r, err := b.traverse(n.Children[lastChild], path, []byte{}, process, ignoreStorageErr, backwards)
 			if err != nil {
 				if !errors.Is(err, errStop) {
 					return nil, err
@@ -316,9 +319,10 @@ func (b *Billet) traverse(curr Node, path, from []byte, process func(pathToNode 
 	case *ExtensionNode:
 		if len(from) != 0 && bytes.HasPrefix(from, n.key) {
 			from = from[len(n.key):]
-		} else if len(from) == 0 || (bytes.Compare(n.key, from) > 0) != backwards {
-			// The whole subtrie is after the start for forward traversal or
-			// before it for backward one.
+		} else if len(from) == 0 || bytes.HasPrefix(n.key, from) || (bytes.Compare(n.key, from) > 0) != backwards {
+			// The whole subtrie either extends the start position (such keys are
+			// included for both directions like persistent storages do), or is
+			// after the start for forward traversal or before it for backward one.
 			from = []byte{}
 		} else {
 			return b.tryCollapseExtension(n), nil
